@@ -267,3 +267,193 @@ def _m_values_accepted(ctx, prog, info, R):
                     break
     # and the good values must remain acceptable
     return bad
+
+
+# ------------------------------------------------------------------ R-ACCEPT: inside the limits => OK (absent allocation failure)
+def r_accept(ctx, prog, codecs=(1, 2, 3)):
+    """Converse of R-PARAM.  Assume the advertised limits K; every CFG edge of the dispatcher (restricted to the codec id) and of
+    the codec's set_fec_parameters from which only error statuses can be returned must be an allocation-failure edge, the failure
+    edge of a callee that can only fail on allocation failure or under conditions K refutes, or be refuted by K itself."""
+    from .ir import out_edges, cond_atoms, NEG, has_atom
+    from .rules_own import atom_refuted
+    from .rules_decode import edge_is_error, nonerror_returns
+    R = 'R-ACCEPT'
+    ctx.rule(R, 'with parameters inside the advertised limits no rejection edge of of_set_fec_parameters / the codec routine / the matrix '
+             'constructor can be taken: each is refuted by the limits, or is an allocation-failure edge', floor=1)
+    for c in codecs:
+        info = CODECS[c]
+        ps = info['pstruct']
+        k, r, ln = P(prog, ps, 'nb_source_symbols'), P(prog, ps, 'nb_repair_symbols'), P(prog, ps, 'encoding_symbol_length')
+        f1 = prog.need_fn(info['fn'], R)
+        t1 = Terms(f1, forward=True)
+        maxk = _field_value(prog, f1, t1, info['struct'], 'max_nb_source_symbols')
+        maxn = _field_value(prog, f1, t1, info['struct'], 'max_nb_encoding_symbols')
+        K = set([('cmp', 'uge', k, ('const', 1)), ('cmp', 'ugt', k, ('const', 0)), ('cmp', 'ule', k, maxk),
+                 ('cmp', 'uge', r, ('const', 1)), ('cmp', 'ugt', r, ('const', 0)),
+                 ('cmp', 'ule', ('bin', 'add', k, r), maxn), ('cmp', 'ule', r, maxn),
+                 ('cmp', 'uge', ln, ('const', 1)), ('cmp', 'ugt', ln, ('const', 0))])
+        assumes = [{}]
+        if c == 2:
+            m = P(prog, ps, 'm')
+            assumes = [{m: 4}, {m: 8}]
+        if c == 3:
+            n1, seed = P(prog, ps, 'N1'), P(prog, ps, 'prng_seed')
+            K |= set([('cmp', 'sge', n1, ('const', 3)), ('cmp', 'uge', n1, ('const', 3)), ('cmp', 'ule', n1, r),
+                      ('cmp', 'sge', seed, ('const', 1)), ('cmp', 'sle', seed, ('const', 0x7FFFFFFE)),
+                      ('cmp', 'uge', seed, ('const', 1)), ('cmp', 'ule', seed, ('const', 0x7FFFFFFE))])
+        f0 = prog.need_fn('of_set_fec_parameters', R)
+        t0 = Terms(f0)
+        cid = L(('field', ('param', 0), 'codec_id', 0))
+        for asm in assumes:
+            tag = 'codec%d%s' % (c, ''.join(':m=%d' % v for v in asm.values()))
+            bad = _reject_edges(prog, f0, t0, dict({cid: c}), K, ses_nonnull=True)
+            bad += _reject_edges(prog, f1, t1, dict(asm), K)
+            ctx.instance(R, not bad, bad[0][0] if bad else f1, tag + ':no-rejection',
+                         '%s: with parameters inside the advertised limits the rejection at %s (%s) can still be taken' %
+                         (info['name'], bad[0][0].loc() if bad else '', bad[0][1] if bad else ''))
+
+
+def _refuted(a, Kb):
+    from .ir import NEG, has_atom
+    from .rules_own import atom_refuted
+    a = norm_atom(a)
+    if a[0] != 'cmp':
+        return False
+    if has_atom(Kb, NEG[a[1]], a[2], a[3]):
+        return True
+    if atom_refuted(a, Kb):
+        return True
+    # x > c with x <= c' <= c known, x == 0 with x >= 1 known, pointer == NULL for a parameter assumed valid
+    lo, hi = interval_from_atoms(list(Kb), a[2], 0, (1 << 64) - 1) if a[3][0] == 'const' else (0, (1 << 64) - 1)
+    if a[3][0] == 'const':
+        cst = a[3][1]
+        if a[1] in ('ugt', 'sgt') and hi <= cst:
+            return True
+        if a[1] in ('uge', 'sge') and hi < cst:
+            return True
+        if a[1] in ('ult', 'slt') and lo >= cst:
+            return True
+        if a[1] in ('ule', 'sle') and lo > cst:
+            return True
+        if a[1] == 'eq' and (cst < lo or cst > hi):
+            return True
+    return False
+
+
+def _reject_edges(prog, f, tt, assume, K, ses_nonnull=False):
+    """error-only edges of f that are neither refuted under K (+ what dominates them) nor allocation-failure edges"""
+    from .ir import out_edges, cond_atoms
+    from .rules_decode import edge_is_error, nonerror_returns, subst_params
+    removed = set(contradicted_edges(f, tt, assume)) if assume else set()
+    reach = f.reachable(f.entry, removed=removed)
+    out = []
+    for b in f.blocks:
+        if b.id not in reach:
+            continue
+        for s2, lab in out_edges(b):
+            if lab is None or (b.id, s2.id) in removed:
+                continue
+            if not _only_nonok(f, s2, b) or _only_nonok(f, b, None):
+                continue
+            # an edge entering the rejection region
+            if lab[0] != 'br':
+                if lab[0] in ('switch-default',):
+                    out.append((b.term(), 'unknown codec / request'))
+                continue
+            atoms = cond_atoms(tt, lab[1], lab[2])
+            Kb = set(K) | set(norm_atom(x) for x in atoms_at(f, tt, b) if x[0] == 'cmp')
+            if ses_nonnull:
+                Kb |= set([('cmp', 'ne', ('param', 0), ('const', 0)), ('cmp', 'ne', ('param', 1), ('const', 0))])
+            if any(_refuted(a, Kb) for a in atoms):
+                continue
+            if edge_is_error(prog, f, tt, b, lab):
+                # allocation failure, or failure status of a callee that fails only on allocation failure
+                if _callee_failure_ok(prog, f, tt, atoms, Kb):
+                    continue
+            if _callee_failure_ok(prog, f, tt, atoms, Kb):
+                continue
+            out.append((b.term(), ' and '.join('%s %s %s' % (show(a[2])[:40], a[1], show(a[3])[:30]) for a in atoms)))
+    return out
+
+
+def _only_nonok(f, start, frm):
+    """every return reachable from block `start` (entered from `frm`) returns a constant non-OK status"""
+    reach = f.reachable(start)
+    got = False
+    for v, chain, r in ret_sources(f):
+        src = f.bmap[chain[0][0]] if chain else r.block
+        if src.id in reach:
+            got = True
+            if v is None or const_of(v) in (None, OK):
+                return False
+    return got
+
+
+def _status_ok_under(prog, g, args, Kb, depth):
+    """every return of g that is not behind an error edge (allocation failure, failure of a callee) yields OK, is refuted by Kb
+    (translated through the call arguments), or is the status of a callee for which the same holds"""
+    from .rules_decode import nonerror_returns, subst_params
+    if depth > 3:
+        return False
+    gt = Terms(g, forward=True)
+    asm = dict((('param', j), args[j][1]) for j in range(len(args)) if args[j][0] == 'const')
+    rem = set(contradicted_edges(g, gt, asm)) if asm else set()
+    reach = g.reachable(g.entry, removed=rem)
+    for v, src, r in nonerror_returns(prog, g):
+        if src.id not in reach:
+            continue
+        c = const_of(v)
+        if c == OK:
+            continue
+        ga = [('cmp', y[1], subst_params(y[2], args), subst_params(y[3], args)) for y in atoms_at(g, gt, src) if y[0] == 'cmp']
+        if any(_refuted(y, Kb) for y in ga):
+            continue
+        if c is None:
+            t = gt.term(v)
+            if t[0] == 'call':
+                h = prog.fn(t[1], g.unit)
+                call = g.insts.get(t[2])
+                if h is not None and call is not None:
+                    hargs = [subst_params(gt.term(z), args) for z in call.args]
+                    if _status_ok_under(prog, h, hargs, Kb, depth + 1):
+                        continue
+        return False
+    return True
+
+
+def _callee_failure_ok(prog, f, tt, atoms, Kb):
+    """the edge says "allocation returned NULL" or "callee g failed": acceptable when g fails only on allocation failure or under
+    conditions refuted by K (translated through the call's arguments)"""
+    from .rules_decode import ALLOC_NAMES, nonerror_returns, subst_params, _alloc_like
+    for a in atoms:
+        if a[0] != 'cmp' or a[3] != ('const', 0):
+            continue
+        x = a[2]
+        if a[1] == 'eq' and _alloc_like(tt, f, x):
+            return True
+        if a[1] == 'eq' and x[0] in ('load', 'load@'):
+            st = tt.stores_by_addr().get(x[1], [])
+            if st and all(_alloc_like(tt, f, tt.term(s.ops[0])) for s in st):
+                return True
+        if x[0] == 'call':
+            g = prog.fn(x[1], f.unit)
+            call = f.insts.get(x[2])
+            if g is None or call is None:
+                continue
+            args = [tt.term(z) for z in call.args]
+            gt = Terms(g, forward=True)
+            if a[1] == 'ne' and g.ret == 'i32':
+                if _status_ok_under(prog, g, args, Kb, 0):
+                    return True
+            if a[1] == 'eq' and g.ret.endswith('*'):
+                okall = True
+                for v, chain, r in ret_sources(g):
+                    if v is None or const_of(v) != 0:
+                        continue
+                    src = g.bmap[chain[0][0]] if chain else r.block
+                    ga = [('cmp', y[1], subst_params(y[2], args), subst_params(y[3], args)) for y in atoms_at(g, gt, src) if y[0] == 'cmp']
+                    if not any(_refuted(y, Kb) for y in ga):
+                        okall = False
+                if okall:
+                    return True
+    return False
